@@ -2,7 +2,7 @@
    Directives in use: those of ExtrOcamlBasic (bool, option, unit, list, prod, sumbool, sumor, comparison as
    OCaml's own types) and nothing else; Z/positive/N/nat/string/ascii stay the extracted inductives. *)
 From Coq Require Import Extraction ExtrOcamlBasic ZArith String List.
-From TLX Require Import PyLib SuiteTypes SuiteParser SuiteTable Iana QuicPn Rfc9000 Varint QuicFrames FrameTable.
+From TLX Require Import PyLib SuiteTypes SuiteParser SuiteTable Iana QuicPn Rfc9000 Varint QuicFrames FrameTable Checksum.
 
 Definition x_suite (c : Z) : option suite := split_cipher_suite table parts c.
 Definition x_denote (n : string) : option denotation := denote n.
@@ -14,4 +14,7 @@ Definition x_quic_nonce := quic_nonce.
 Definition x_parse_frames := parse_frames frame_table.
 Definition x_varint := decode_variable_length_int.
 Definition x_varint_len := get_variable_length_int_length.
-Extraction "model.ml" x_parse_frames x_varint x_varint_len x_full_pn x_rfc_pn x_quic_nonce x_suite x_denote x_iana index from_be to_be Z.add Z.mul Z.div Z.modulo Z.eqb Z.ltb.
+Definition x_cksum (off : Z) (v6 : bool) (src dst : bytes) (proto : Z) (sg : bytes) (fld : Z) :=
+  calculate_checksum off {| ipv6 := v6; ip_src := src; ip_dst := dst; proto := proto; seg := sg; field := fld |}.
+Definition x_occ := ones_complement_checksum.
+Extraction "model.ml" x_cksum x_occ x_parse_frames x_varint x_varint_len x_full_pn x_rfc_pn x_quic_nonce x_suite x_denote x_iana index from_be to_be Z.add Z.mul Z.div Z.modulo Z.eqb Z.ltb.
